@@ -62,6 +62,10 @@ def stream_cases(pid, seed, tier, *, record=None, K=(12, 24), monitor=1.0, fly=0
             if rng.random() < 0.35:
                 val[0] += 1
                 decs.append({"do": "put", "signal": "sig1", "value": val[0]})  # update while paused
+            if rng.random() < 0.12:
+                # end the run while paused: whatever was emitted before the rewind must still be accounted for
+                decs.append({"do": rng.choice(["abort", "stop"])})
+                continue
             d = {"do": "resume"}
             if rng.random() < 0.6:
                 d["inject"] = fill(gen.gen_injections(rng, n, kinds=kinds, k=rng.choice([1, 2, 3]), slack=3))
